@@ -152,6 +152,11 @@ TRUSTED["C17"] = [
     "loop variable Hcov (an accumulated average that is never returned) is declared dead: havoc'ed in the generic iteration, unreadable after the loop",
 ]
 
+TRUSTED["C08"] = [
+    "eig kernel, complex logarithm / sqrt axioms, argmax contract (as for C01 / C05)",
+    "that the Hankel matrix and the realisation do not depend on the declared sampling frequency is visible in their signatures (no dt / fs parameter); SSI_poles hands dt to ac2mp (C01)",
+]
+
 ASSUMPTIONS = {
     "C09": [
         "a mode-shape vector in a pole table is either entirely non-finite or entirely finite",
@@ -207,7 +212,12 @@ ASSUMPTIONS["C03"] = ["split: number of datasets enumerated (2); channel counts,
 ASSUMPTIONS["C17"] = ["factor clause only: channel/reference counts, block rows, record length and number of blocks nb >= 2 symbolic; N >= 2 nb",
                       "the main clause (variance = first-order propagation) is NOT proved: bounded stand-in against finite differences (labelled bounded)"]
 
+ASSUMPTIONS["C08"] = ["deductive part: the modal-parameter stage only (ssi.ac2mp, plscf.ac2mp_poly): unit normalisation and time-unit covariance for symbolic state dimension, channel count, dt and factor kappa",
+                      "gain, channel-permutation and whole-pipeline time-unit covariance are NOT proved: metamorphic bounded stand-in (labelled bounded)"]
+
 NOT_DECIDED = {
+    "C08": ["covariance under gain and channel permutation / orthogonal mixing for every algorithm class: bounded stand-in only (orthogonal mixing other than permutations is not exercised)",
+            "unit normalisation of FDD / EFDD shapes is proved under C06 (FDD_mpe's contract), not repeated here"],
     "C17": ["variance = squared directional derivative / sum of squares over several columns: bounded stand-in only (and it fails: open finding)",
             "the last data block is one sample short when nb divides N (the block slice is clamped to the N-1 available columns) but is still divided by Nb: a small bias the "
             "property does not speak about; the contract models it exactly"],
